@@ -65,6 +65,43 @@ def all_lines(files):
     return sorted(out)
 
 
+def rmw_sites(files):
+    """[(basename, lineno, qualname)] of every read-modify-write statement on shared state (``obj.attr += x``, ``obj[k] -= x``) in
+    the given s3transfer files: the places where an update can be lost if two threads are inside the statement at once."""
+    import dis
+
+    out = []
+    seen = set()
+    for co in _code_objects():
+        base = os.path.basename(co.co_filename)
+        if base not in files:
+            continue
+        for off, ln in _rmw_offsets(co):
+            if (base, ln) not in seen:
+                seen.add((base, ln))
+                out.append((base, ln, co.co_qualname))
+    return sorted(out)
+
+
+def _rmw_offsets(co):
+    """(offset of the storing instruction, line) for each in-place update of an attribute / item in the code object."""
+    import dis
+
+    out = []
+    ins = list(dis.get_instructions(co))
+    for i, x in enumerate(ins):
+        if x.opname in ('STORE_ATTR', 'STORE_SUBSCR'):
+            ln = x.positions.lineno if x.positions else None
+            # an in-place binary operation earlier on the same line marks ``target op= value``
+            j = i - 1
+            while j >= 0 and ins[j].positions and ins[j].positions.lineno == ln:
+                if ins[j].opname == 'BINARY_OP' and '=' in (ins[j].argrepr or ''):
+                    out.append((x.offset, ln))
+                    break
+                j -= 1
+    return out
+
+
 def find_line(filename, text, nth=0):
     """Line number (1-based) of the nth source line containing ``text``."""
     path = os.path.join(os.path.dirname(s3transfer.__file__), filename)
@@ -95,6 +132,8 @@ class Injector:
         self.window_hits = {}
         self.sleep_max = sleep_max
         self.codes = []
+        self.icodes = []
+        self.rmw_targets = {}  # (id(code), offset) -> window list: the thread is held between the load and the store of ``x op= y``
         self.active = False
 
     def _rng(self):
@@ -150,6 +189,28 @@ class Injector:
                 else:
                     time.sleep(r.random() * self.sleep_max)
 
+    def _icb(self, code, offset):
+        if not self.active:
+            return
+        ws = self.rmw_targets.get((id(code), offset))
+        if not ws:
+            return
+        for w in ws:
+            if w['fired']:
+                continue
+            k = w['hits']
+            w['hits'] = k + 1
+            if k == w.get('nth', 0):
+                w['fired'] = True
+                self.window_hits[w.get('name', f'{w["file"]}:{w["line"]}')] = threading.current_thread().name
+                from . import watchdog
+
+                end = time.monotonic() + w.get('wait', 0.3)
+                with watchdog.paused(), watchdog.polling():
+                    while time.monotonic() < end:
+                        if watchdog.quiescent(gap=0.001):
+                            break
+
     def install(self):
         global _installed
         mon = sys.monitoring
@@ -159,8 +220,32 @@ class Injector:
         mon.register_callback(TOOL_ID, mon.events.LINE, self._cb)
         self.codes = [c for c in _code_objects()
                       if self.files is None or os.path.basename(c.co_filename) in self.files]
+        rmw = {k: [w for w in ws if w.get('rmw')] for k, ws in self.windows.items()}
+        rmw = {k: ws for k, ws in rmw.items() if ws}
+        if rmw:
+            # windows INSIDE one statement: instruction events on the functions holding the targeted ``x op= y`` lines; the thread
+            # is held just before the store, i.e. after it has read the old value
+            mon.register_callback(TOOL_ID, mon.events.INSTRUCTION, self._icb)
+            for c in _code_objects():
+                base = os.path.basename(c.co_filename)
+                hit = False
+                for off, ln in _rmw_offsets(c):
+                    ws = rmw.get((base, ln))
+                    if ws:
+                        self.rmw_targets.setdefault((id(c), off), []).extend(ws)
+                        hit = True
+                if hit:
+                    self.icodes.append(c)
+            for k in rmw:
+                self.windows[k] = [w for w in self.windows[k] if not w.get('rmw')]
         for c in self.codes:
-            mon.set_local_events(TOOL_ID, c, mon.events.LINE)
+            ev = mon.events.LINE
+            if c in self.icodes:
+                ev |= mon.events.INSTRUCTION
+            mon.set_local_events(TOOL_ID, c, ev)
+        for c in self.icodes:
+            if c not in self.codes:
+                mon.set_local_events(TOOL_ID, c, mon.events.INSTRUCTION)
         self.active = True
         _installed = self
         return self
@@ -169,11 +254,15 @@ class Injector:
         global _installed
         mon = sys.monitoring
         self.active = False
-        for c in self.codes:
+        for c in list(self.codes) + list(self.icodes):
             try:
                 mon.set_local_events(TOOL_ID, c, 0)
             except Exception:
                 pass
+        try:
+            mon.register_callback(TOOL_ID, mon.events.INSTRUCTION, None)
+        except Exception:
+            pass
         try:
             mon.register_callback(TOOL_ID, mon.events.LINE, None)
             mon.free_tool_id(TOOL_ID)
